@@ -426,6 +426,13 @@ def check(run):
     run.floor("remesh / repair functions that de-duplicate", n8, 3)
     run.assume("real arithmetic; that BFS re-winding reaches consistency for every flip subset, hole detection, Euler number, edge-length bound and Loop "
                "masks are not decided")
+    from ..passthrough import pass_through_rule
+    for spec_ in ("trimesh.base:Trimesh.subdivide_to_size", "trimesh.base:Trimesh.subdivide", "trimesh.base:Trimesh.subdivide_loop"):
+        core_ = {"subdivide_to_size": "subdivide_to_size", "subdivide": "subdivide", "subdivide_loop": "subdivide_loop"}[spec_.split(".")[-1]]
+        pass_through_rule(run, ix, "R9", "C18", spec_, core_,
+                          "Trimesh.subdivide / subdivide_to_size / subdivide_loop: every result comes out of the remesh routine of the same name; only an empty mesh may return before it",
+                          "a bound on the bounding box (or any other proxy) says nothing about individual edges - a unit box has 1.41-long diagonals - so a shortcut returns edges longer "
+                          "than the requested bound, and the method disagrees with the function it wraps")
     return {
         "explanation": "Write-effect analysis of the repair functions (faces only), prefix-append structure of fill_holes / subdivide, a polynomial "
         "identity for the 4-child table evaluated against the producer's edge layout (each child is parent/4 with the same orientation, children "
